@@ -1,5 +1,5 @@
 //! Ping / speedtest / reverse-proxy channels on whole sessions (real codecs, real handlers) over in-memory transports.
-//! in : [channel, http2, allow_private, rp_enabled, speedtest_enable, auth, read_delay_ms] [method_kind] target headers [body_to_send]
+//! in : [channel, http2, allow_private, rp_enabled, speedtest_enable, auth, read_delay_ms, handler_timeout_ms (0 = default), establishment_timeout_ms (0 = 1500)] [method_kind] target headers [body_to_send]
 //!        channel: 0 tunnel SNI (routing by HttpDemux) | 1 ping host | 2 speedtest host | 3 reverse-proxy host
 //!        method_kind: 6 GET | 7 POST | 8 PUT | 9 HEAD | 1 CONNECT; target: path (origin-form; Host: h is added)
 //!        headers: flat [name_len, name..., value_len, value...]*; body_to_send: number of zero bytes the client sends as body
@@ -101,7 +101,11 @@ pub fn session(toks: Vec<Tok>) -> Vec<Tok> {
             })
             .allow_private_network_connections(cfg[2] == 1)
             .speedtest_enable(cfg[4] == 1)
-            .connection_establishment_timeout(Duration::from_millis(1500));
+            .connection_establishment_timeout(Duration::from_millis(if cfg.len() > 8 && cfg[8] > 0 { cfg[8] as u64 } else { 1500 }));
+        if cfg.len() > 7 && cfg[7] > 0 {
+            // the service handlers' request timeout
+            b = b.tls_handshake_timeout(Duration::from_millis(cfg[7] as u64));
+        }
         if cfg[3] == 1 {
             b = b.reverse_proxy(
                 ReverseProxySettings::builder()
